@@ -18,11 +18,12 @@ VARIABLES phase, ts, q, lo, hi, idx, res
 vars == <<phase, ts, q, lo, hi, idx, res>>
 
 Init == phase = "build" /\ ts = <<>> /\ q = <<0, 0>> /\ lo = 0 /\ hi = 0 /\ idx = 0 /\ res = 0
-\* payload: original line = insertion index, so that token identity is observable
+\* payload: original line = insertion index, so that token identity is observable; original column 0, so that the
+\* first token maps to the origin 0:0 of its source (the smallest payload there is)
 AddToken == /\ phase = "build" /\ Len(ts) < MaxToks
             /\ \E l \in Lines, c \in Cols, f \in Flags :
                  /\ (IF ts = <<>> THEN TRUE ELSE PosLe(Pos(ts[Len(ts)]), <<l, c>>))
-                 /\ ts' = Append(ts, Tok(l, c, 0, Len(ts), 2, -1, f))
+                 /\ ts' = Append(ts, Tok(l, c, 0, Len(ts), 0, -1, f))
             /\ UNCHANGED <<phase, q, lo, hi, idx, res>>
 Pick == /\ phase = "build"
         /\ \E qq \in Queries : q' = qq
